@@ -601,7 +601,7 @@ int main(int argc, char** argv) {
       rep.assumptions.push_back(std::string("lg_k 4 and 5 for the deviation paths, 4..6 for unions, 4..") + (q ? "8" : "10") + " for the hashed streams: larger lg_k (up to 26) are out of reach of enumeration; the compressor's table-driven code is exercised on the image of every state but only for the column distributions that k <= " + (q ? "256" : "1024") + " produces");
       rep.assumptions.push_back("direct novel-coupon probes are restricted to rows {0,1,k-1} x columns 0..20 plus all rows x columns {offset-1,offset,offset+7,offset+8}; the speed filter first_interesting_column is decided completely against the first column that still has a zero");
       rep.assumptions.push_back("default paths stop at window offset 11 (lg_k 4) / 5 (lg_k 5) in the quick tier and 17 / 9 in the thorough tier; offsets up to 56 are not reached");
-      rep.sets("rule", std::string("E2: every path with <= 1 inserted deviation (menu of 19: pairs at columns {offset-1,offset,offset+7,offset+8,62,63} x rows {0,k-1}, duplicate, serialize round trip in place (bytes, stream), copy, copy-assign, union with a sparse / a folded hybrid sketch) from column-major and row-major fill paths; E1: BFS over cpc_union update(const&)/update(&&)/get_result on 27 operand sketches (lg_k 4..6 x 5 flavors x 2 contents) for union lg_k 4..6, every history of at most ") + str(q ? 3 : 4) + " updates" + (q ? "" : "; E2 additionally with <= 2 deviations (menu of 6) on a 112-step path at lg_k 4") + "; hashed streams: one stream of 30000..400000 typed inputs per (lg_k, input type) through the public update overloads, oracle after every novel coupon. Oracle = set<(row,col)> model evaluated in every state. Distinct = distinct (flavor, offset, merged, last-operation) outcome tag.");
+      rep.sets("rule", std::string("E2: every path with <= 1 inserted deviation (menu of 19: pairs at columns {offset-1,offset,offset+7,offset+8,62,63} x rows {0,k-1}, duplicate, serialize round trip in place (bytes, stream), copy, copy-assign, union with a sparse / a folded hybrid sketch) from column-major and row-major fill paths; E1: BFS over cpc_union update(const&)/update(&&)/get_result on 27 operand sketches (lg_k 4..6 x 5 flavors x 2 contents) for union lg_k 4..6, every history of at most ") + str(q ? 3 : 4) + " updates" + (q ? "" : "; E2 additionally with <= 2 deviations (menu of 5: serialize round trip, union with a sparse sketch, pairs (0,offset-1), (k-1,offset+8), (0,63)) on a 112-step path at lg_k 4") + "; hashed streams: one stream of 30000..400000 typed inputs per (lg_k, input type) through the public update overloads, oracle after every novel coupon. Oracle = set<(row,col)> model evaluated in every state. Distinct = distinct (flavor, offset, merged, last-operation) outcome tag.");
     }; tasks.push_back(t); }
 
   { Task t; t.name = "rowcol-grid"; t.fn = [&cfg](Report& rep) { rowcol_grid_check(rep, cfg); }; tasks.push_back(t); }
@@ -633,7 +633,7 @@ int main(int argc, char** argv) {
   }
 
   // E2: single sketch
-  for (int lg = 4; lg <= 5; ++lg) for (int order = 0; order < 2; ++order) {
+  for (int pass = 0; pass < 2; ++pass) for (int lg = 4; lg <= 5; ++lg) for (int order = 0; order < 2; ++order) {
     CpcSys sys; sys.lg_k = lg;
     sys.ncols = lg == 4 ? (q ? 14 : 20) : (q ? 8 : 12);
     sys.nm = std::string("e2/lgk") + str(lg) + (order ? "/rowmajor" : "/colmajor");
@@ -645,17 +645,17 @@ int main(int argc, char** argv) {
     for (size_t m = 0; m < CpcSys::OP_FIXED0; ++m) menu.push_back(m);
     PathLimits pl; pl.max_dev = 1; pl.check_stride = 1;
     const size_t nshares = q ? 6 : 8;
-    for (size_t sh = 0; sh < nshares; ++sh) {
+    for (size_t sh = 0; sh < nshares && pass == 0; ++sh) {
       Task t; t.name = sys.nm + "/share" + str(sh);
       t.fn = [sys, def, menu, pl, sh, nshares, &cfg](Report& rep) mutable { explore_paths_shared(sys, def, menu, rep, cfg, pl, sh, nshares); };
       tasks.push_back(t);
     }
-    if ((!q || replaying) && lg == 4) { // thorough: two deviations on a shorter path (through sparse, hybrid, pinned, sliding and four window shifts) with a reduced menu
+    if (pass == 1 && (!q || replaying) && lg == 4) { // thorough: two deviations on a shorter path (through sparse, hybrid, pinned, sliding and four window shifts) with a reduced menu
       CpcSys s2 = sys; s2.ncols = 7; s2.nm = sys.nm + "/2dev";
       std::vector<size_t> def2, menu2;
       if (order == 0) { for (int c = 0; c < s2.ncols; ++c) for (uint32_t r = 0; r < k; ++r) def2.push_back(s2.fixed_op(r, (uint32_t)c)); }
       else { for (uint32_t r = 0; r < k; ++r) for (int c = 0; c < s2.ncols; ++c) def2.push_back(s2.fixed_op(r, (uint32_t)c)); }
-      menu2.push_back(CpcSys::OP_SERDE_BYTES); menu2.push_back(CpcSys::OP_UNION_SPARSE); menu2.push_back(CpcSys::OP_REL0 + 0); menu2.push_back(CpcSys::OP_REL0 + 6 + 3); menu2.push_back(CpcSys::OP_REL0 + 5); menu2.push_back(CpcSys::OP_DUP);
+      menu2.push_back(CpcSys::OP_SERDE_BYTES); menu2.push_back(CpcSys::OP_UNION_SPARSE); menu2.push_back(CpcSys::OP_REL0 + 0); menu2.push_back(CpcSys::OP_REL0 + 6 + 3); menu2.push_back(CpcSys::OP_REL0 + 5);
       PathLimits p2; p2.max_dev = 2; p2.check_stride = 1;
       const size_t ns2 = 16;
       for (size_t sh = 0; sh < ns2; ++sh) {
